@@ -423,18 +423,18 @@ std::string ClassifyDeath(const PoolDeath &d, std::string *sig,
     // "<prog>: <file>:<line>: <function>: Assertion `expr' failed."
     size_t a = line.find(": ");
     std::string rest = a == std::string::npos ? line : line.substr(a + 2);
-    // Drop the line number (unstable across edits).
+    // Keep file and expression; drop the line number (unstable across edits)
+    // and the function signature (template arguments vary per instantiation).
     std::string norm;
     size_t c1 = rest.find(':');
-    size_t c2 = rest.find(':', c1 + 1);
-    if (c1 != std::string::npos && c2 != std::string::npos) {
-      std::string file = rest.substr(0, c1);
-      size_t sl = file.rfind('/');
-      if (sl != std::string::npos) file = file.substr(sl + 1);
-      norm = file + rest.substr(c2);
-    } else {
-      norm = rest;
-    }
+    std::string file = c1 == std::string::npos ? rest : rest.substr(0, c1);
+    size_t sl = file.rfind('/');
+    if (sl != std::string::npos) file = file.substr(sl + 1);
+    size_t ex = rest.find("Assertion `");
+    std::string expr = ex == std::string::npos ? "" : rest.substr(ex + 11);
+    size_t q = expr.rfind("' failed");
+    if (q != std::string::npos) expr = expr.substr(0, q);
+    norm = file + "|" + expr;
     cls = "assert";
     *sig = "assert:" + norm;
   } else if (log.find("TOLERATED_TERMINATE") != std::string::npos) {
